@@ -42,7 +42,7 @@ broadcast use {lemmas32::lemma_or_reserved, lemmas32::lemma_mask28};
         r is Ok ==> fits32(old(fat).bytes(), cluster as int) && r->Ok_0 == raw32(old(fat).bytes(), cluster as int),
 //@endextract
 
-// @obl props=C08,C09,C13 tier=quick fns=Fat32::get
+// @obl props=C03,C08,C09,C13 tier=quick fns=Fat32::get
 // @desc FAT32 get(k): Ok(v) => v = class32(k, low 28 bits of entry k) - every legal end-of-chain marker, the bad marker, reserved top bits ignored, special cluster numbers reported Bad; table unchanged; errors are stream errors
 //@extract file=src/table.rs scope="impl FatTrait for Fat32" fn=get as=fat32_get self_prefix=fat32_
 //@generics <S: Stream<E>, E>
